@@ -199,6 +199,9 @@ pub fn facts_of(case: &Case, finding: &Finding) -> J {
         f.set("looping_nullable", J::Bool(a.has_looping_nullable()));
         f.set("group_in_loop", J::Bool(a.has_group_in_loop()));
         f.set("min0_variable_greedy_repeat", J::Bool(a.has_min0_variable_greedy_repeat()));
+        let (zw_mixed, zw_pure) = a.zero_width_loops();
+        f.set("zero_width_loop_mixed", J::Bool(zw_mixed));
+        f.set("zero_width_loop_pure", J::Bool(zw_pure));
         f.set("group_in_quant", J::Bool(a.has_group_in_quant()));
         f.set("groups", J::u(a.count_groups() as u64));
         f.set("backref", J::Bool(a.has_backref()));
